@@ -8,6 +8,7 @@ real code processes the samples, the parsed regions, per chromosome and sample t
 and the read set the real ReadSetReader detected.
 stdin: json {vcf, bam, ref (path or None), opts}; stdout: one json object.
 """
+import inspect
 import json
 import sys
 
@@ -64,8 +65,10 @@ def main():
             table = H.load_chromosome_variants(vcf_reader, chrom, regions)
             spy = Spy()
             # the real function decides the sample order (set iteration / sorted(...)) and what is read
+            extra = ((o["ignore_read_groups"],)
+                     if "ignore_read_groups" in inspect.signature(H.prepare_haplotag_information).parameters else ())
             H.prepare_haplotag_information(table, shared, spy, regions, o["ignore_linked_read"],
-                                           50000 if o.get("cutoff") is None else o["cutoff"], ploidy)
+                                           50000 if o.get("cutoff") is None else o["cutoff"], ploidy, *extra)
             entry = {"rows": {}, "reads": {}}
             this_order = [c[0] for c in spy.calls]
             if order is None:
